@@ -686,6 +686,8 @@ class Emitter:
         cfg = self.cfg
         if k in ("tfield", "field", "index") and self.rust_text(e) in cfg.get("exprs", {}):
             return cfg["exprs"][self.rust_text(e)]
+        if k == "raw":
+            return e[1]
         if k == "num":
             return int_literal(e[1])
         if k == "paren":
@@ -1234,6 +1236,203 @@ class Emitter:
             return self.write_of(s[3])
         return None
 
+    # ---- outcome mode (cfg["outcome"]): the function returns `Outcome …`; reads of a sequential parser,
+    # `?`, `unwrap()` and failing assertions are effects, translated in evaluation order into a chain of
+    # `Outcome.bind`s (continuation-passing at expression level: what follows an `if` / `match` whose branches
+    # have effects is duplicated into the branches).  The parser state is the byte list `bs`, rebound by
+    # every read.
+    def effect_of(self, e):
+        """(template, argument expressions, stateful) if `e` is an effect of the table, else None"""
+        cfg = self.cfg
+        if e[0] == "try":
+            inner = self.effect_of(e[1])
+            if inner is not None:
+                return inner
+            e1 = e[1]
+            if e1[0] == "call" and e1[1][0] == "path" and self.path_text(e1[1][1]) in cfg.get("try_calls", {}):
+                return (cfg["try_calls"][self.path_text(e1[1][1])], [a for a in e1[2] if not self.is_parser(a)], False)
+            return None
+        if e[0] == "mcall" and self.is_parser(e[1]) and e[2] in cfg.get("reads", {}):
+            return (cfg["reads"][e[2]], list(e[3]), True)
+        if e[0] == "call" and e[1][0] == "path" and self.path_text(e[1][1]) in cfg.get("read_calls", {}):
+            return (cfg["read_calls"][self.path_text(e[1][1])], [a for a in e[2] if not self.is_parser(a)], True)
+        if e[0] == "mcall" and e[2] == "unwrap" and not e[3]:
+            r = e[1]
+            if r[0] == "call" and r[1][0] == "path" and self.path_text(r[1][1]) in cfg.get("try_calls", {}):
+                return ("(unwrapped (" + cfg["try_calls"][self.path_text(r[1][1])] + "))", list(r[2]), False)
+            if cfg.get("unwrap_options") and not self.has_effect(r):
+                return ("(unwrapOpt {0})", [r], False)
+        return None
+
+    def is_parser(self, e):
+        while e[0] in ("ref", "paren"):
+            e = e[1]
+        return e[0] == "path" and e[1] == [self.cfg.get("parser", "parser")]
+
+    def has_effect(self, e):
+        if not isinstance(e, tuple):
+            if isinstance(e, list):
+                return any(self.has_effect(x) for x in e)
+            return False
+        if e and e[0] in ("try", "mcall", "call") and self.effect_of(e) is not None:
+            return True
+        if e and e[0] == "macro":
+            return e[1] in ("panic", "unreachable", "todo", "unimplemented", "assert", "assert_eq", "assert_ne")
+        if e and e[0] == "return":
+            return True
+        if e and e[0] == "call" and e[1][0] == "path" and e[1][1] == ["Err"]:
+            return True
+        return any(self.has_effect(x) for x in e[1:] if isinstance(x, (tuple, list)))
+
+    def fresh(self):
+        self.nfresh = getattr(self, "nfresh", 0) + 1
+        return f"r{self.nfresh}"
+
+    def o_seq(self, exprs, k):
+        """evaluate expressions left to right, then continue with the list of their value nodes"""
+        if not exprs:
+            return k([])
+        head, rest = exprs[0], exprs[1:]
+        return self.o_ex(head, lambda v: self.o_seq(rest, lambda vs: k([("raw", v)] + vs)))
+
+    def o_ex(self, e, k):
+        if e[0] == "call" and e[1][0] == "path" and e[1][1] == ["Err"]:
+            return "(.err .format)"
+        if not self.has_effect(e):
+            return k(self.ex(e))
+        kind = e[0]
+        if kind in ("paren", "ref"):
+            return self.o_ex(e[1], lambda v: k(v))
+        eff = self.effect_of(e) if kind in ("try", "mcall", "call") else None
+        if eff is not None:
+            tmpl, args, stateful = eff
+
+            def emit(vs):
+                r = self.fresh()
+                call = self.tmpl(tmpl, None, [self.atom(a) for a in vs])
+                pat = f"({r}, bs)" if stateful else r
+                return f"(({call}).bind fun {pat} =>\n{k(r)})"
+            return self.o_seq(args, emit)
+        if kind == "try":
+            return self.o_ex(e[1], k)
+        if kind == "macro":
+            if e[1] in ("panic", "unreachable", "todo", "unimplemented"):
+                return '(.panic "")'
+            raise Untranslatable("macro in an effectful expression: " + e[1])
+        if kind == "return":
+            return self.o_return(e)
+        if kind == "tuple":
+            return self.o_seq(e[1], lambda vs: k(self.ex(("tuple", vs))))
+        if kind == "struct":
+            names = [f for f, _ in e[2]]
+            return self.o_seq([x for _, x in e[2]], lambda vs: k(self.ex(("struct", e[1], list(zip(names, vs))))))
+        if kind == "bin":
+            return self.o_seq([e[2], e[3]], lambda vs: k(self.ex(("bin", e[1], vs[0], vs[1]))))
+        if kind == "cast":
+            return self.o_ex(e[1], lambda v: k(self.ex(("cast", ("raw", v), e[2]))))
+        if kind == "un":
+            return self.o_ex(e[2], lambda v: k(self.ex(("un", e[1], ("raw", v)))))
+        if kind in ("field", "tfield"):
+            return self.o_ex(e[1], lambda v: k(self.ex((kind, ("raw", v), e[2]))))
+        if kind == "call":
+            return self.o_seq(e[2], lambda vs: k(self.ex(("call", e[1], vs))))
+        if kind == "mcall":
+            return self.o_seq([e[1]] + list(e[3]), lambda vs: k(self.ex(("mcall", vs[0], e[2], vs[1:]))))
+        if kind == "if":
+            if self.has_effect(e[1]):
+                raise Untranslatable("effect in a condition")
+            if e[3] is None:
+                raise Untranslatable("`if` without else in value position")
+            return (f"(if {self.cond(e[1])} then\n{indent(self.o_blockval(e[2], k))}\nelse\n{indent(self.o_blockval(e[3], k))})")
+        if kind == "match":
+            def arms(sv):
+                out = []
+                for pats, guard, body in e[2]:
+                    if guard is not None:
+                        raise Untranslatable("match guard")
+                    out.append("| " + " | ".join(self.pat(q) for q in pats) + " =>\n" + indent(self.o_blockval(body, k)))
+                return f"(match {sv} with\n" + "\n".join(out) + ")"
+            return self.o_ex(e[1], arms)
+        if kind == "block":
+            return self.o_block(e[1], k)
+        raise Untranslatable("effectful expression kind " + kind)
+
+    def o_blockval(self, b, k):
+        if b[0] == "block":
+            return self.o_block(b[1], k)
+        return self.o_ex(b, k)
+
+    def o_return(self, e):
+        v = e[1]
+        if v is not None and v[0] == "call" and v[1][0] == "path" and v[1][1] == ["Err"]:
+            return "(.err .format)"
+        raise Untranslatable("early return of a value in outcome mode")
+
+    def o_block(self, sts, k):
+        """statements of a block, then `k` applied to the value of its tail expression"""
+        sts = [x for x in sts if x[0] != "empty"]
+        if not sts:
+            return k("()")
+        s, rest = sts[0], sts[1:]
+        cont = lambda: self.o_block(rest, k)   # noqa: E731
+        kind = s[0]
+        if kind == "let":
+            _, pat, init, mut, ty, els = s
+            if els is not None or init is None:
+                raise Untranslatable("let form")
+            ptxt = self.pat(pat)
+            return self.o_ex(init, lambda v: f"let {ptxt} := {v}\n{cont()}")
+        if kind == "expr":
+            _, e, semi = s
+            if not rest and not semi:
+                if e[0] == "call" and e[1][0] == "path" and e[1][1] == ["Err"]:
+                    return "(.err .format)"
+                return self.o_ex(e, k)
+            if e[0] == "macro":
+                if e[1] in ("debug_assert", "debug_assert_eq", "debug_assert_ne", "trace", "debug", "println") or e[1] in self.cfg.get("ignore_macros", []):
+                    return cont()
+                if e[1] in ("panic", "unreachable", "todo", "unimplemented"):
+                    return '(.panic "")'
+                if e[1] in ("assert", "assert_eq", "assert_ne"):
+                    args, cur, d = [], [], 0
+                    for tk in e[2]:
+                        if tk[1] in ("(", "[", "{"):
+                            d += 1
+                        elif tk[1] in (")", "]", "}"):
+                            d -= 1
+                        if tk[1] == "," and d == 0:
+                            args.append(cur)
+                            cur = []
+                        else:
+                            cur.append(tk)
+                    if cur:
+                        args.append(cur)
+                    need = 1 if e[1] == "assert" else 2
+                    xs = []
+                    for part in args[:need]:
+                        q = Parser(part + [("eof", "")])
+                        xs.append(q.expr())
+                    c = self.cond(xs[0]) if e[1] == "assert" else self.cond(("bin", "==" if e[1] == "assert_eq" else "!=", xs[0], xs[1]))
+                    return f"(if {c} then\n{indent(cont())}\nelse\n  .panic \"\")"
+                raise Untranslatable("macro " + e[1])
+            if e[0] == "return":
+                return self.o_return(e)
+            if e[0] == "if" and e[3] is None:
+                if self.has_effect(e[1]):
+                    raise Untranslatable("effect in a condition")
+                return f"(if {self.cond(e[1])} then\n{indent(self.o_block(e[2][1], lambda v: cont()))}\nelse\n{indent(cont())})"
+            if e[0] in ("if", "match", "block"):
+                return self.o_ex(e, (lambda v: cont()) if rest else k)
+            return self.o_ex(e, lambda v: cont())
+        if kind == "assign":
+            _, op, lhs, rhs = s
+            if lhs[0] == "path" and len(lhs[1]) == 1:
+                target = self.v(lhs[1][0])
+                val = rhs if op == "=" else ("bin", op[:-1], lhs, rhs)
+                return self.o_ex(val, lambda v: f"let {target} := {v}\n{cont()}")
+            raise Untranslatable("assignment target in outcome mode")
+        raise Untranslatable("statement kind in outcome mode: " + kind)
+
     def loop(self, c, body, rest, k, scope):
         if not self.has_loop:
             raise Untranslatable("internal: loop in a function not declared with loops")
@@ -1368,6 +1567,8 @@ class Emitter:
             return "(" + ", ".join(self.rust_text(x) for x in e[1]) + ")"
         if k == "macro":
             return e[1] + "!(..)"
+        if k == "raw":
+            return e[1]
         return "<" + k + ">"
 
 
@@ -1414,8 +1615,25 @@ def translate_expr(name, expr_text, cfg):
     return f"def {name} {sig} : {cfg['ret']} :=\n  {em.ex(e)}\n"
 
 
+def translate_outcome(name, body_text, cfg):
+    """outcome mode: `def <name> … : Outcome (ret [× Bytes])`"""
+    ast = parse_body(body_text)
+    em = Emitter(name, cfg)
+    params = cfg["params"]
+    sig = " ".join(f"({p} : {t})" for p, t in params)
+    stateful = cfg.get("stateful", True)
+    final = (lambda v: f".ok ({v}, bs)") if stateful else (lambda v: f".ok ({v})")
+    body = em.o_block(ast[1], final)
+    if cfg.get("prelude"):
+        body = cfg["prelude"] + "\n" + body
+    ret = f"({cfg['ret']} × Bytes)" if stateful else cfg["ret"]
+    return f"def {name} {sig} : Outcome ({ret}) :=\n{indent(body)}\n"
+
+
 def translate(name, body_text, cfg):
     """Lean text of `def <name> …` (with its loop functions) for the Rust function body `body_text`."""
+    if cfg.get("outcome"):
+        return translate_outcome(name, body_text, cfg)
     ast = parse_body(body_text)
     em = Emitter(name, cfg)
     em.has_loop = (contains_loop(ast) and not cfg.get("no_loops")) or bool(cfg.get("partial"))
